@@ -64,6 +64,11 @@ func tAnd(ts ...Term) Term {
 		if t.S == "false" {
 			return tFalse
 		}
+		if strings.HasPrefix(t.S, "(and ") {
+			// flatten: conjunctions built up pairwise stay one flat list (they are split conjunct-wise later)
+			parts = append(parts, splitSexp(t.S[1 : len(t.S)-1])[1:]...)
+			continue
+		}
 		parts = append(parts, t.S)
 	}
 	switch len(parts) {
@@ -162,6 +167,26 @@ func tIte(c, a, b Term) Term {
 }
 
 func tSelect(arr Term, idx Term) Term {
+	// read-over-write at the syntactically same index, looking through names introduced by FnVC.define: the value of a
+	// variable that lives in a cell (captured by a closure, address taken) is then the stored term itself
+	a := arr.S
+	for depth := 0; depth < 4; depth++ {
+		body := a
+		if b, ok := defBodies[a]; ok {
+			body = b
+		}
+		if !strings.HasPrefix(body, "(store ") {
+			break
+		}
+		parts := splitSexp(body[1 : len(body)-1])
+		if len(parts) != 4 {
+			break
+		}
+		if parts[2] == idx.S {
+			return Term{parts[3], arrayElemSort(arr.Sort)}
+		}
+		break
+	}
 	return Term{app("select", arr.S, idx.S), arrayElemSort(arr.Sort)}
 }
 
